@@ -69,6 +69,7 @@ mutual
     | .str s => [.tok (printStr cfg s)]
     | .chr c => [.tok (printChr c)]
     | .sym name => [.tok (printSym cfg name)]
+    | .flt f neg ds e => [.tok (printFloat cfg f neg ds e)]
   def flatTail (cfg : PCfg) : Obj → List Piece
     | .nil => [.tok [')']]
     | .cons a d => .sep [' '] :: flatPieces cfg a ++ flatTail cfg d
@@ -78,6 +79,7 @@ mutual
     | .str s => [.sep [' '], .tok ['.'], .sep [' '], .tok (printStr cfg s), .tok [')']]
     | .chr c => [.sep [' '], .tok ['.'], .sep [' '], .tok (printChr c), .tok [')']]
     | .sym name => [.sep [' '], .tok ['.'], .sep [' '], .tok (printSym cfg name), .tok [')']]
+    | .flt f neg ds e => [.sep [' '], .tok ['.'], .sep [' '], .tok (printFloat cfg f neg ds e), .tok [')']]
     | .vec e => .sep [' '] :: .tok ['.'] :: .sep [' '] :: vecWrap cfg e (flatPieces cfg e) ++ [.tok [')']]
     | .arr r c => .sep [' '] :: .tok ['.'] :: .sep [' '] :: arrWrap cfg r c (flatPieces cfg c) ++ [.tok [')']]
 end
@@ -119,6 +121,7 @@ mutual
     | .str s => byteLen (printStr cfg s)
     | .chr c => byteLen (printChr c)
     | .sym name => byteLen (printSym cfg name)
+    | .flt f neg ds e => byteLen (printFloat cfg f neg ds e)
   /-- size of the second node of a list: the next element, or the dot (size 1) -/
   def headSize (cfg : PCfg) (margin : Nat) : Obj → Nat
     | .cons b _ => nodeSize cfg margin b
@@ -132,6 +135,7 @@ mutual
     | .str s => byteLen (printStr cfg s)
     | .chr c => byteLen (printChr c)
     | .sym name => byteLen (printSym cfg name)
+    | .flt f neg ds e => byteLen (printFloat cfg f neg ds e)
     | .vec e => byteLen (renderPieces (vecWrap cfg e (prettyPieces cfg margin 0 0 e)))
     | .arr r c => byteLen (renderPieces (arrWrap cfg r c (prettyPieces cfg margin 0 0 c)))
   /-- `appendTree` for one object starting at column `offset`, with `closes` parentheses to follow -/
@@ -156,6 +160,7 @@ mutual
     | .str s => [.tok (printStr cfg s)]
     | .chr c => [.tok (printChr c)]
     | .sym name => [.tok (printSym cfg name)]
+    | .flt f neg ds e => [.tok (printFloat cfg f neg ds e)]
   /-- the nodes after the first, at indentation `off`, current position `pos` -/
   def prettyTail (cfg : PCfg) (margin off pos closes : Nat) : Obj → List Piece
     | .nil => [.tok [')']]
@@ -171,6 +176,7 @@ mutual
     | .str s => dottedTail margin off pos closes (byteLen (printStr cfg s)) [.tok (printStr cfg s)]
     | .chr c => dottedTail margin off pos closes (byteLen (printChr c)) [.tok (printChr c)]
     | .sym name => dottedTail margin off pos closes (byteLen (printSym cfg name)) [.tok (printSym cfg name)]
+    | .flt f neg ds e => dottedTail margin off pos closes (byteLen (printFloat cfg f neg ds e)) [.tok (printFloat cfg f neg ds e)]
     | .vec e =>
       let inner := vecWrap cfg e (prettyPieces cfg margin 0 0 e)
       dottedTail margin off pos closes (byteLen (renderPieces inner)) inner
